@@ -195,7 +195,8 @@ def run_unit(repo, unit, cfg, wd, tier='quick', prop=None):
                 seen.add(ob)
                 if cex is None and h.get('playback', True):
                     cex = concrete_playback(ws, cfg, h, target_dir) or ''
-                res['failed'].append({'obligation': ob, 'unit': unit, 'fn': fn, 'clause': clause, 'tags': h['tags'],
+                n_fail_checks = len([x for x in (user_failed + panics) if ((x['description'].split('/', 1) == [fn, clause]) if x in user_failed else (clause == h.get('panic_clause', 'no-panic')))])
+                res['failed'].append({'obligation': ob, 'unit': unit, 'fn': fn, 'clause': clause, 'tags': h['tags'], 'n_failed_checks': max(1, n_fail_checks),
                                       'message': 'Kani: %s (%s) in harness %s' % (c['description'], c['location'], h['name']),
                                       'rendered': '\n'.join('%s: %s [%s] %s' % (x['id'], x['status'], x['description'], x['location'])
                                                             for x in r['checks'] if x['status'] != 'SUCCESS')[:4000],
